@@ -37,6 +37,27 @@ def oracle(chk, inp, newer_cls, older_cls, m, data, schema, ci, old_numbers):
     except Exception as e:
         chk.fail("older-reader-raises", inp, repr(e))
         return None
+    # every way the older program can write the message carries the same bytes: dump(), SerializeToString(), and a
+    # relay between size-delimited streams (load(SIZE_DELIMITED) then dump(SIZE_DELIMITED): prefix = what follows)
+    try:
+        import io
+        s = io.BytesIO()
+        old.dump(s)
+        if s.getvalue() != re or old.SerializeToString() != re:
+            chk.fail("older-writer-disagrees-with-bytes", inp, "bytes=%s dump=%s" % (re.hex(), s.getvalue().hex()))
+        src = io.BytesIO(betterproto.encode_varint(len(data)) + data)
+        relay = older_cls().load(src, betterproto.SIZE_DELIMITED)
+        dst = io.BytesIO()
+        relay.dump(dst, betterproto.SIZE_DELIMITED)
+        rebytes = bytes(relay)
+        if dst.getvalue() != betterproto.encode_varint(len(rebytes)) + rebytes or rebytes != re:
+            chk.fail("delimited-relay-loses-data", inp, "relayed frame %s, message bytes %s" % (dst.getvalue().hex(), re.hex()))
+        else:
+            back2 = newer_cls().load(io.BytesIO(dst.getvalue()), betterproto.SIZE_DELIMITED)
+            if not (back2 == m):
+                chk.fail("delimited-relay-loses-data", inp, "orig=%r back=%r" % (m, back2))
+    except Exception as e:
+        chk.fail("older-relay-raises", inp, repr(e))
     try:
         recs_in = WS.split(data)
         recs_out = WS.split(re)
